@@ -86,3 +86,50 @@ fn replay_c18_batch_agrees_with_individual() {
     for f in failures.iter().take(4) { println!("FAILING-INPUT property=C18 {}", f); }
     assert!(failures.is_empty(), "{} disagreeing batches", failures.len());
 }
+
+/// A signature verifies under the key and digest it was made for and under nothing else (C18): every single-bit change
+/// of the signature, of the digest and of the public key is rejected by `verify`, and by `verify_batch` when the changed
+/// signature sits next to a valid one.
+#[test]
+fn replay_c18_every_bit_matters() {
+    let mut rng = StdRng::seed_from_u64(seed());
+    let (pk, sk) = generate_keypair(&mut rng);
+    let (pk2, sk2) = generate_keypair(&mut rng);
+    let mut d = [0u8; 32];
+    rng.fill_bytes(&mut d);
+    let digest = Digest(d);
+    let sig = Signature::new(&digest, &sk);
+    let sig2 = Signature::new(&digest, &sk2);
+    let mut failures = Vec::new();
+    if sig.verify(&digest, &pk).is_err() {
+        failures.push("an honest signature does not verify under its own key and digest".to_string());
+    }
+    let flat: Vec<u8> = sig.part1.iter().chain(sig.part2.iter()).cloned().collect();
+    for bit in 0..512usize {
+        let mut f = flat.clone();
+        f[bit / 8] ^= 1 << (bit % 8);
+        let mut changed = sig.clone();
+        changed.part1.copy_from_slice(&f[..32]);
+        changed.part2.copy_from_slice(&f[32..]);
+        if changed.verify(&digest, &pk).is_ok() {
+            failures.push(format!("signature with bit {} flipped is accepted by verify", bit));
+        }
+        if Signature::verify_batch(&digest, &[(pk, changed), (pk2, sig2.clone())]).is_ok() {
+            failures.push(format!("signature with bit {} flipped is accepted by verify_batch next to a valid member", bit));
+        }
+    }
+    for bit in 0..256usize {
+        let mut dd = d;
+        dd[bit / 8] ^= 1 << (bit % 8);
+        if sig.verify(&Digest(dd), &pk).is_ok() {
+            failures.push(format!("signature accepted for a digest with bit {} flipped", bit));
+        }
+        let mut k = pk.0;
+        k[bit / 8] ^= 1 << (bit % 8);
+        if sig.verify(&digest, &PublicKey(k)).is_ok() {
+            failures.push(format!("signature accepted under a public key with bit {} flipped", bit));
+        }
+    }
+    for f in failures.iter().take(4) { println!("FAILING-INPUT property=C18 {}", f); }
+    assert!(failures.is_empty(), "{} single-bit changes accepted", failures.len());
+}
